@@ -126,7 +126,7 @@ theorem filelist_names_the_files (a : DatasetArgs) (q : QueryFacts) (fs : FsFact
     rw [h1] at hc
     simp only [List.mem_singleton] at hc
     subst hc
-    refine ⟨u.parent, by simp [mkCall, volumesFor], ?_⟩
+    refine ⟨u.parent, by simp [mkCall, mkCallT, volumesFor], ?_⟩
     intro f hf
     have hfu : f.parent = u.parent := hs f hf u (by rw [hp]; simp)
     refine ⟨hfu, fun hne => ?_⟩
@@ -143,7 +143,7 @@ theorem chooseImage_eq (d : String) (mds : List MdEntry) :
     chooseImage d mds = match mds.find? MdEntry.isDocker with
       | some (.docker (some i)) => i
       | _ => d := by
-  unfold chooseImage foundDocker
+  unfold chooseImage chooseImageT foundDocker
   induction mds with
   | nil => simp
   | cons m ms ih =>
@@ -175,7 +175,7 @@ theorem image (a : DatasetArgs) (q : QueryFacts) (fs : FsFacts) (o : Outcome) :
     rw [h1] at hc
     simp only [List.mem_singleton] at hc
     subst hc
-    simp only [mkCall, mkDataset, expectedImage]
+    simp only [mkCall, mkCallT, mkDataset, expectedImage]
     exact chooseImage_eq _ _
 
 /-- **C17.image_default_without_docker_md** — metadata of other kinds never changes the image; with
@@ -239,10 +239,10 @@ theorem volumes (a : DatasetArgs) (q : QueryFacts) (fs : FsFacts) (o : Outcome) 
     constructor
     · unfold volumesMatch
       rw [hp]
-      simp only [List.head?_cons, mkCall, mkDataset, canon_volumesFor]
+      simp only [List.head?_cons, mkCall, mkCallT, mkDataset, canon_volumesFor]
       exact sameMembers_refl _
     · unfold MountsDistinct
-      simp only [mkCall, mkDataset, mounts_volumesFor]
+      simp only [mkCall, mkCallT, mkDataset, mounts_volumesFor]
       exact hm
 
 /-! ## the call -/
@@ -265,10 +265,10 @@ theorem call_exactly_when_runnable (a : DatasetArgs) (q : QueryFacts) (fs : FsFa
   | ran hv ht hs u us hp tl r htl =>
     obtain ⟨h1, _, _, h4, h5, _⟩ := observe_ran a (mkCall (mkDataset a fs) q u.parent) tl r htl
     simp only [CallOk, h1, h4, h5]
-    simp [Runnable, hv, hs, ht, hrow, mkCall, mkDataset]
+    simp [Runnable, hv, hs, ht, hrow, mkCall, mkCallT, mkDataset]
 
 theorem prepare_no_run (ds : Dataset) (q : QueryFacts) : callsOf (prepare ds q).1 = [] := by
-  unfold prepare
+  unfold prepare prepareT
   cases ht : q.translates
   · simp [callsOf]
   · cases hf : ds.files with
@@ -446,7 +446,8 @@ theorem result_is_plan_then_finish (a : DatasetArgs) (q : QueryFacts) (fs : FsFa
       cases r with
       | error e => rw [body_of_prepare_error _ q fs o evs e hp]
       | ok c =>
-        unfold body finish
+        unfold prepare at hp
+        unfold body bodyT finish
         simp only [hp]
         cases hr : runContainer o with
         | mk n res =>
@@ -485,7 +486,7 @@ theorem output_content_irrelevant (a : DatasetArgs) (q : QueryFacts) (fs : FsFac
     (hr : o.resultPresent = o'.resultPresent) : execute a q fs o = execute a q fs o' := by
   have h1 : runContainer o = runContainer o' := by unfold runContainer; rw [hl, he, ha]
   have h2 : ∀ ds, deliver ds fs o = deliver ds fs o' := by intro ds; unfold deliver; rw [hr]
-  have h3 : ∀ ds, body ds q fs o = body ds q fs o' := by intro ds; unfold body; simp only [h1, h2]
+  have h3 : ∀ ds, body ds q fs o = body ds q fs o' := by intro ds; unfold body bodyT; simp only [h1, h2]
   unfold execute
   cases construct a fs with
   | error e => rfl
@@ -546,6 +547,71 @@ theorem spec_holds (a : DatasetArgs) (q : QueryFacts) (fs : FsFacts) (o : Outcom
    call_exactly_when_runnable a q fs o hrow, failure_propagates a q fs o,
    failure_class a q fs o, missing_result a q fs o,
    success_returns a q fs o, returns_only_on_success a q fs o, (tempdir_released a q fs o).1⟩
+
+/-! ## sequences of executions on one dataset object -/
+
+/-- the state shared between executors never reaches the result: every step overwrites the
+`"docker"` template with its own dataset's image before using it -/
+theorem step_ignores_shared_state (s : Shared) (ds : Dataset) (q : QueryFacts) (fs : FsFacts) (o : Outcome) :
+    (stepIn s ds q fs o).2 = (.tmpCreate :: (body ds q fs o).1 ++ [.tmpRemove], (body ds q fs o).2) := rfl
+
+theorem runSeq_eq (s : Shared) (ds : Dataset) (fs : FsFacts) (steps : List (QueryFacts × Outcome)) :
+    runSeq s ds fs steps =
+      steps.map fun st => (.tmpCreate :: (body ds st.1 fs st.2).1 ++ [.tmpRemove], (body ds st.1 fs st.2).2) := by
+  induction steps generalizing s with
+  | nil => rfl
+  | cons st rest ih =>
+    obtain ⟨q, o⟩ := st
+    simp only [runSeq, List.map_cons, step_ignores_shared_state, ih]
+
+/-- **C17.sequence_independent** — any number of executions on ONE dataset object, started in ANY
+shared state (whatever earlier datasets and queries left behind): the i-th execution is exactly
+the single execution of the i-th query with the i-th container outcome. Nothing — image, file
+list, volumes, result — depends on the executions before it. -/
+theorem sequence_independent (s : Shared) (a : DatasetArgs) (fs : FsFacts) (steps : List (QueryFacts × Outcome))
+    (hv : Valid a fs) :
+    executeSeq s a fs steps = .ok (steps.map fun st => execute a st.1 fs st.2) := by
+  unfold executeSeq execute
+  rw [construct_of_valid a fs hv]
+  simp only [runSeq_eq]
+
+/-- a refused constructor means no execution at all, whatever was planned -/
+theorem sequence_refused (s : Shared) (a : DatasetArgs) (fs : FsFacts) (steps : List (QueryFacts × Outcome))
+    (hv : ¬ Valid a fs) : ∃ e, executeSeq s a fs steps = .error e ∧ construct a fs = .error e := by
+  unfold executeSeq
+  cases hc : construct a fs with
+  | error e => exact ⟨e, rfl, rfl⟩
+  | ok ds => exact absurd (construct_ok_valid a fs ds hc).1 hv
+
+theorem spec_sequence_obs (s : Shared) (a : DatasetArgs) (fs : FsFacts) (steps : List (QueryFacts × Outcome))
+    (hv : Valid a fs) :
+    observeSeq s a fs steps = steps.map (fun st => observe a (execute a st.1 fs st.2)) := by
+  unfold observeSeq
+  rw [sequence_independent s a fs steps hv]
+  simp only [List.map_map]
+  rfl
+
+/-- **C17.spec_sequence** — the whole specification holds of EVERY execution of a sequence on one
+dataset object, each judged with its own query and its own container outcome: in particular the
+image of execution i is the one chosen by query i's docker metadata, else the dataset's
+`image:tag`, whatever images earlier queries asked for. -/
+theorem spec_sequence (s : Shared) (a : DatasetArgs) (fs : FsFacts) (steps : List (QueryFacts × Outcome))
+    (hv : Valid a fs) (hrow : a.row.runner ∈ a.row.fileNames) (hm : RowMounts a.row) :
+    observeSeq s a fs steps = steps.map (fun st => observe a (execute a st.1 fs st.2)) ∧
+    ∀ st ∈ steps, Spec a st.1 fs st.2 (observe a (execute a st.1 fs st.2)) := by
+  refine ⟨?_, fun st _ => spec_holds a st.1 fs st.2 hrow hm⟩
+  unfold observeSeq
+  rw [sequence_independent s a fs steps hv]
+  simp only [List.map_map]
+  rfl
+
+/-- **C17.image_sequence** — spelled out for the image: in a sequence, every container of execution
+i runs `expectedImage a qᵢ`. -/
+theorem image_sequence (s : Shared) (a : DatasetArgs) (fs : FsFacts) (steps : List (QueryFacts × Outcome))
+    (hv : Valid a fs) (i : Nat) (hi : i < steps.length) :
+    ∃ ob, (observeSeq s a fs steps)[i]? = some ob ∧ ∀ c ∈ ob.calls, c.image = expectedImage a steps[i].1 := by
+  rw [(spec_sequence_obs s a fs steps hv)]
+  refine ⟨observe a (execute a steps[i].1 fs steps[i].2), by simp [hi], image a _ fs _⟩
 
 /-! ## the generated table -/
 
@@ -610,7 +676,12 @@ example : ¬ SameDir { exArgs with files := ["/d/a.root", "/e/c.root"] } ∧
 -- missing file / empty list: constructor error
 example : (execute { exArgs with files := ["/d/a.root", "/d/nope.root"] } exQ exFs exGood).1 = [] := by decide
 example : ¬ Valid { exArgs with files := [] } exFs := by decide
--- failure after one chunk, with decodable output: DockerException
+-- a sequence on one dataset object: docker metadata, then none (after a failing container in between): the third
+-- execution runs the dataset's own image again
+example : ((observeSeq ⟨some "left/behind:0"⟩ exArgs exFs
+      [(exQ, exGood), (⟨[.docker (some "x:1")], true⟩, exLatin1Fail), (⟨[], true⟩, exGood)]).map
+        fun ob => ob.calls.map (·.image)) = [["inner:1"], ["x:1"], ["ex/image:1.0"]] := by decide
+-- failure after one chunk: DockerException
 example : (observe exArgs (execute exArgs exQ exFs { exGood with ending := .dockerError })).err = some "DockerException" := by decide
 example : ∀ r ∈ backends, r.runner ∈ r.fileNames := fun r hr => (generated_backends_wellformed.2 r hr).1
 
